@@ -38,6 +38,9 @@ type Op struct {
 	// Adv: a message/response no correct cluster can produce for this node state
 	// (correspondence is still checked; property monitors stop for the rest of the sequence).
 	Adv bool `json:"adv,omitempty"`
+	// Elect (voteResult): term of the election whose request this reply answers; it travels over that
+	// election's reply channel. 0 = not specified (delivered to onVoteResult directly).
+	Elect uint64 `json:"elect,omitempty"`
 }
 
 // model renders the op in the shape Driver/Node.lean parses.
@@ -150,30 +153,33 @@ type crashCopy struct {
 
 // World is one node under test with its storage directory.
 type World struct {
-	Rng    *rand.Rand
-	D      *harness.Driver
-	St     *Stats
-	Seed   int64
-	Self   uint64
-	CID    uint64
-	Node   *raft.VerifNode
-	Dir    string
-	Base   string
-	Opt    raft.Options
-	Trail  []Op
-	task   uint64
-	copies []crashCopy
-	obs    []Obs
+	Rng         *rand.Rand
+	D           *harness.Driver
+	St          *Stats
+	Seed        int64
+	Self        uint64
+	CID         uint64
+	Node        *raft.VerifNode
+	Dir         string
+	Base        string
+	Opt         raft.Options
+	Trail       []Op
+	task        uint64
+	copies      []crashCopy
+	obs         []Obs
 	crashStates []CrashState
-	ncopy  int
-	mon    *Monitor
-	Quiet  bool // do not generate ops; used by clustersim
-	Dirty  bool // an adversarial op happened: monitors are off
+	ncopy       int
+	mon         *Monitor
+	Quiet       bool // do not generate ops; used by clustersim
+	Dirty       bool // an adversarial op happened: monitors are off
 	// Broken: model and implementation disagreed earlier in this sequence. The sequence goes on in
 	// search mode: no more comparisons, the property monitors keep evaluating the real execution,
 	// looking for a concrete input on which a property fails.
 	Broken bool
 	voted  map[uint64]map[uint64]bool // term -> voters whose response was delivered
+	// Calm: this sequence keeps the node leading (few disruptive requests): leader-side behaviour
+	// (membership changes, rounds, transfers, commits, compaction) gets deep states
+	Calm bool
 }
 
 var worlds sync.Map // dir -> *World
@@ -192,6 +198,20 @@ func InstallPointFn() {
 			return
 		}
 		if name == "value.set" && (len(args) < 2 || args[1] != ".term") {
+			return
+		}
+		if name == "timeoutNow" {
+			// observation only: the leader designates args[1] as its successor
+			if v, ok := worlds.Load(filepath.Dir(dir)); ok && len(args) >= 2 {
+				w := v.(*World)
+				if n := w.Node; n != nil {
+					o := n.Observe()
+					if x, ok := args[1].(uint64); ok {
+						o.Arg = x
+					}
+					w.obs = append(w.obs, Obs{name, o})
+				}
+			}
 			return
 		}
 		v, ok := worlds.Load(dir)
@@ -316,7 +336,11 @@ func (w *World) apply(op Op) {
 	case "transfer":
 		n.Transfer(op.Task, op.Target)
 	case "voteResult":
-		n.VoteResult(op.Src, op.Err, op.Term, op.Result)
+		if op.Elect != 0 {
+			n.VoteResultVia(op.Elect, op.Src, op.Err, op.Term, op.Result)
+		} else {
+			n.VoteResult(op.Src, op.Err, op.Term, op.Result)
+		}
 	case "replUpdates":
 		n.ReplUpdates(op.Updates)
 	case "transferTimeout":
@@ -396,9 +420,16 @@ func (w *World) Step(op Op) bool {
 	}
 	matched := false
 	var models []interface{}
+	mop := op.model()
+	staleReply := op.Kind == "voteResult" && op.Elect != 0 && op.Elect != pre.Term
+	if staleReply {
+		// the model: a reply of an election other than the running one is a lost reply (candidate.go
+		// gives every election a fresh channel); the real node gets it over that election's channel
+		mop["err"] = true
+	}
 	for level := 1; level <= 3 && !matched && !w.Broken; level++ {
 		ans, err := w.D.Ask(map[string]interface{}{"engine": "node", "what": "step", "id": w.St.Steps,
-			"pre": pre, "op": op.model(), "rollAt": rollAt, "level": level})
+			"pre": pre, "op": mop, "rollAt": rollAt, "level": level})
 		if err != nil {
 			w.record("driver", pre, real, fmt.Sprint(err, ans), op, "driver error", nil)
 			return false
